@@ -728,3 +728,4 @@ example : ∃ net' d', Reaches midNet net' ∧ Quiescent net' ∧ Holds net' 0 d
 end Ex
 
 end Orda.DNet
+
